@@ -56,10 +56,12 @@ ASSUMPTIONS = [
     "public-API stream: N > D (pencil right-hand sides nonsingular), eigenvalue gaps > 1e-3 relative for the "
     "rotation comparison (inside a numerically multiple eigenvalue the basis is free)",
     "public-API comparisons are made for cond(X B X^T) <= 1e9 only, with tolerances growing like 1e4*eps*cond",
-    "only eigen_method = Dense is exercised (ARPACK is not built; Randomized is rejected by the library for "
-    "generalised problems)",
+    "eigen_method: Dense, not given (= Dense in a build without ARPACK) and Randomized (refused by the library for "
+    "generalised problems with unsupported_method_error: accepted as a refusal, any returned result is judged like "
+    "the others); the ARPACK path is not built here",
 ]
 
+EM_NAMES = ("", ", eigen_method not given", ", eigen_method = Randomized")
 RES_TOL = 1e-6      # relative generalised-eigen residual (defects F9/F25 give 1e-2 .. 1)
 RQ_TOL = 1e-6       # Rayleigh quotient against the reference spectrum, relative to its spread
 GRAM_TOL = 1e-6
@@ -148,6 +150,29 @@ def gen_k_case(rng, method, kind):
     return {"kind": "K", "gen": kind, "method": method, "N": N, "D": D,
             "X": [[fs(v) for v in row] for row in X],
             "W": [[r, c, fs(v)] for (r, c, v) in W], "dv": [fs(v) for v in dv]}
+
+
+# powers of two by which the stored entries / the degree vector / the features are multiplied (1e-12 ~ 2^-39.9)
+K_SCALES_W = (-70, -60, -50, -45, -42, -41, -40, -39, -38, -35, -30, -20, -10, 10, 20, 40, 70)
+K_SCALES_X = (0, 0, 0, -70, -30, -20, -8, 8, 20, 30, 70)
+
+
+def scale_k_case(rng, c):
+    """the same exact case in other units: stored entries of W / L times 2^a, degree vector times 2^b (mostly
+    b = a: a common factor on L and D leaves the generalised problem unchanged), features times 2^s.  Powers of two
+    keep the binary64 arithmetic exact; the model is exactly scale-equivariant (npe/lltsa/lpp_scale_equivariant),
+    the generalised problem scale free (generalised_problem_scale_free): nothing may depend on the magnitude."""
+    a = rng.choice(K_SCALES_W)
+    b = a if rng.random() < 0.7 else rng.choice(K_SCALES_W)
+    sx = rng.choice(K_SCALES_X)
+    fa, fb, fx = Fraction(2) ** a, Fraction(2) ** b, Fraction(2) ** sx
+    c2 = dict(c)
+    c2["gen"] = c["gen"] + "+scaled"
+    c2["scale"] = {"w": a, "dv": b if c["dv"] else None, "x": sx}
+    c2["X"] = [[fs(sf(v) * fx) for v in row] for row in c["X"]]
+    c2["W"] = [[r, cc, fs(sf(v) * fa)] for r, cc, v in c["W"]]
+    c2["dv"] = [fs(sf(v) * fb) for v in c["dv"]]
+    return c2
 
 
 def gen_k_malformed(rng, method):
@@ -335,7 +360,10 @@ def eval_k(ctx, exe1, mexe, cases, stats, reads="lower"):
                 models[name] = [token_frac(x) for x in ml[1:]] if ml and ml[0] == "ok" else None
             impl = parsed[i][0] + parsed[i][1]
             cls = classify_tables(impl, models)
-            if verdict.strip() != "spec 1":
+            vw = verdict.split()
+            seen_ok = len(vw) == 3 and vw[0] == "spec" and vw[1] == "1"
+            full_ok = len(vw) == 3 and vw[0] == "spec" and vw[2] == "1"
+            if not seen_ok:
                 sig, what = None, ""
                 if cls == "before-F9" or (models["before-F9"] is not None and cls is None and
                                           lower_only_zero(parsed[i], D)):
@@ -356,15 +384,27 @@ def eval_k(ctx, exe1, mexe, cases, stats, reads="lower"):
                               % (c["method"], reads, what, fd), signature=sig)
                 stats["spec_fail"] += 1
                 continue
+            if not full_ok:
+                # what the solver reads is right, the other triangle is not: the routines are specified to return
+                # the FULL symmetric tables (DenseSymmetricMatrixPair, fix F9; theorem returned_tables_symmetric,
+                # decision procedure spec_full_b)
+                stats["other_triangle_differs"] += 1
+                fd = first_diff(impl, models["current"], D)
+                if stats["other_triangle_differs"] <= 2 and not c["gen"].startswith("corpus"):
+                    c = shrink_k(ctx, exe1, mexe, c, reads)
+                    fd += " (before shrinking)"
+                ctx.violation(c, "construct_%s eigenproblem: the returned tables are not the full symmetric matrices "
+                                 "(X (W+W^T) X^T, X B X^T) [LLTSA: X centred]: the triangle the dense solver reads (%s) "
+                                 "is right, the other one is not, so any consumer reading it (or the whole table) "
+                                 "solves another problem; first differing entry: %s" % (c["method"], reads, fd))
+                continue
             stats["spec_ok"] += 1
             if models["current"] is None:
                 ctx.mismatch(c, "model reports %s on an input the implementation accepts" % mlines[NV * i][:60])
             elif cls != "current":
-                # what the solver reads is right, the other triangle differs from the model
-                stats["other_triangle_differs"] += 1
-                if stats["other_triangle_differs"] <= 3:
-                    ctx.note("tables differ from the model outside the triangle the solver reads (not a "
-                             "verdict): %s %s" % (c["method"], first_diff(impl, models["current"], D)))
+                # impossible unless model and decision procedure disagree (model_output_meets_full_spec)
+                ctx.mismatch(c, "tables pass spec_full_b but differ from the model: %s %s"
+                             % (c["method"], first_diff(impl, models["current"], D)))
     return len(cases)
 
 
@@ -390,7 +430,7 @@ def k_spec_fails(ctx, exe1, mexe, c, reads="lower"):
         rhs = [rhs[j * D + k] for k in range(D) for j in range(D)]
     sr = mrun(ctx, mexe, "S " + k_body_model(c) + " " + " ".join(frac_token(x) for x in lhs) + " "
                  + " ".join(frac_token(x) for x in rhs) + "\n", timeout=60)
-    return sr.out.strip() != "spec 1"
+    return sr.out.split() != ["spec", "1", "1"]
 
 
 def shrink_k(ctx, exe1, mexe, c, reads="lower"):
@@ -692,10 +732,43 @@ def gen_e_case(rng, method, big):
             "X": [[hexf(v) for v in row] for row in X]}      # sample major
 
 
+def gen_e_lattice_case(rng, tgt, em=0):
+    """LPP over widths spanning many decades.  Samples: a jittered unit lattice in D dimensions, rotated, shifted
+    and expressed in a random unit, so that all nearest-neighbour distances are about one unit and the heat weights
+    exp(-d^2/width) of the neighbour pairs are all about 10^-tgt (never zero).  The generalised problem is invariant
+    under the common factor this puts on L and D; with arbitrary data a narrow kernel makes the degrees span dozens
+    of decades and X D X^T numerically singular, which a tolerance comparison cannot judge."""
+    D = rng.choice([2, 3, 3, 4])
+    dims = rng.choice({2: [(7, 5), (8, 5), (6, 4)], 3: [(6, 4, 3), (5, 4, 3), (4, 3, 3)], 4: [(3, 3, 2, 2), (4, 3, 2, 2)]}[D])
+    pts = [[]]
+    for n in dims:
+        pts = [p + [float(i)] for p in pts for i in range(n)]
+    jit = rng.choice([0.01, 0.02, 0.03])
+    pts = [[v + rng.uniform(-jit, jit) for v in p] for p in pts]
+    R0 = random_orthogonal(rng, D)
+    offk = rng.choice([0.0, 0.0, 1.0, 5.0])
+    off = [offk * rng.uniform(-1, 1) for _ in range(D)]
+    X = [[math.fsum(R0[f][g] * p[g] for g in range(D)) + off[f] for f in range(D)] for p in pts]
+    rng.shuffle(X)
+    scale = rng.choice([1.0, 1.0, 2.0 ** -17, 2.0 ** -6, 2.0 ** 10])
+    X = [[v * scale for v in row] for row in X]
+    width = scale * scale / (tgt * math.log(10.0))
+    N = len(X)
+    return {"kind": "E", "gen": "lattice", "method": "lpp", "N": N, "D": D, "d": rng.randint(1, D - 1),
+            "k": rng.randint(2, 2 * D), "width": hexf(width), "nshift": hexf(1e-9), "kshift": hexf(1e-3),
+            "offset": offk, "scale": scale, "heat_exp10": -tgt, "em": em,
+            "X": [[hexf(v) for v in row] for row in X]}
+
+
+# -log10 of the heat weight of a unit-distance pair, one stratum per case (Eigen's dummy precision is 1e-12)
+LATTICE_STRATA = ((0.3, 3.0), (3.0, 8.0), (8.0, 11.5), (11.5, 12.5), (12.5, 16.0), (16.0, 22.0), (22.0, 30.0), (30.0, 40.0))
+
+
 def e_line(c, X=None):
     X = X if X is not None else c["X"]
-    return "E %s %d %d %d %d %s %s %s %s" % (c["method"], c["N"], c["D"], c["d"], c["k"], c["width"],
-                                           c["nshift"], c["kshift"], " ".join(x for row in X for x in row))
+    return "E %s %d %d %d %d %s %s %s %d %s" % (c["method"], c["N"], c["D"], c["d"], c["k"], c["width"],
+                                              c["nshift"], c["kshift"], c.get("em", 0),
+                                              " ".join(x for row in X for x in row))
 
 
 def parse_e(line, N, D, d):
@@ -743,9 +816,14 @@ def eval_e(ctx, exe1, exe2, cases, stats, rng, rotate_every=2):
             ctx.violation(c, "tapkee::embed(%s) crashed / hung%s: %s"
                           % (c["method"], " on the rotated data" if isrot else "", str(inf)[:500]))
             continue
+        if c.get("em", 0) == 2 and line.startswith("E unsupported"):
+            # the library states that the Randomized eigensolver does not handle generalised problems
+            # (unsupported_method_error): an explicit refusal, not a wrong answer
+            stats["e_randomized_refused"] += 1
+            continue
         if not line.startswith("E ok"):
-            ctx.violation(c, "tapkee::embed(%s) failed on valid data%s: %s"
-                          % (c["method"], " (rotated)" if isrot else "", line[:300]))
+            ctx.violation(c, "tapkee::embed(%s%s) failed on valid data%s: %s"
+                          % (c["method"], EM_NAMES[c.get("em", 0)], " (rotated)" if isrot else "", line[:300]))
             continue
         try:
             p = parse_e(line, c["N"], c["D"], c["d"])
@@ -806,24 +884,50 @@ def eval_e(ctx, exe1, exe2, cases, stats, rng, rotate_every=2):
         t = parse_tagged(line, ("ref_evals", "rq", "res", "gram", "norms", "condB"))
         condB = parse_hex(t["condB"][0]) if t.get("condB") else float("inf")
         stats["e_max_condB"] = max(stats["e_max_condB"], condB if math.isfinite(condB) else 1e300)
-        if not condB <= COND_MAX:
-            # the generalised problem itself is too ill-conditioned for a tolerance comparison to mean anything
-            stats["e_skipped_illconditioned"] += 1
-            continue
-        # backward-stable solvers lose about eps * cond(B) in the spectrum: tolerances grow with it
-        slack = max(1.0, 1e4 * 2.3e-16 * condB / RQ_TOL)
-        ref = [parse_hex(x) for x in t["ref_evals"]]
-        rq = [parse_hex(x) for x in t["rq"]]
-        rs = [parse_hex(x) for x in t["res"]]
-        gram = unflat([parse_hex(x) for x in t["gram"]], d, d)
-        if line.split()[2] != "1" or not all(math.isfinite(x) for x in ref):
-            stats["ref_failed"] += 1
-            continue
-        spread = max(abs(ref[0]), abs(ref[-1]), 1e-300)
         why = []
-        if not all(math.isfinite(x) for x in p["P"] + p["Y"]):
-            why.append("non-finite projection matrix / embedding")
+        finite = all(math.isfinite(x) for x in p["P"] + p["Y"] + p["mean"])
+        if not finite:
+            why.append("non-finite projection matrix / mean / embedding")
         else:
+            # embedding = centred samples projected (no conditioning involved: judged for every case)
+            Xf = [[parse_hex(x) for x in row] for row in c["X"]]
+            mean = [math.fsum(Xf[s][f] for s in range(N)) / N for f in range(D)]
+            xmax = max(abs(x) for row in Xf for x in row)
+            me = max(abs(mean[f] - p["mean"][f]) for f in range(D))
+            if not me <= 1e-11 * max(xmax, 1e-300):
+                why.append("the stored mean differs from the sample mean by %.2e" % me)
+            P = unflat(p["P"], D, d)
+            Y = unflat(p["Y"], N, d)
+            ee, yscale = 0.0, 0.0
+            for j in range(d):
+                pj = max(abs(P[f][j]) for f in range(D))
+                yscale = max(yscale, pj * xmax)
+            for s in range(N):
+                for j in range(d):
+                    y = math.fsum(P[f][j] * (Xf[s][f] - mean[f]) for f in range(D))
+                    ee = max(ee, abs(y - Y[s][j]))
+            # rounding of P^T (x - mean): relative to |P| |x| (the offsets cancel in x - mean)
+            if not ee <= EMB_TOL * max(yscale, 1e-300):
+                why.append("embedding differs from P^T (x - mean) by %.2e" % ee)
+        spectral = condB <= COND_MAX and finite
+        if not condB <= COND_MAX:
+            # the generalised problem itself is too ill-conditioned for a tolerance comparison of the spectrum to
+            # mean anything (counted); the embedding / mean clauses above are judged all the same
+            stats["e_skipped_illconditioned"] += 1
+        ref = rq = rs = []
+        if spectral:
+            # backward-stable solvers lose about eps * cond(B) in the spectrum: tolerances grow with it
+            slack = max(1.0, 1e4 * 2.3e-16 * condB / RQ_TOL)
+            ref = [parse_hex(x) for x in t["ref_evals"]]
+            rq = [parse_hex(x) for x in t["rq"]]
+            rs = [parse_hex(x) for x in t["res"]]
+            gram = unflat([parse_hex(x) for x in t["gram"]], d, d)
+            if line.split()[2] != "1" or not all(math.isfinite(x) for x in ref) or len(ref) != D or \
+                    len(rq) != d or len(rs) != d:
+                stats["ref_failed"] += 1
+                spectral = False
+        if spectral:
+            spread = max(abs(ref[0]), abs(ref[-1]), 1e-300)
             bad_res = [j for j in range(d) if not (rs[j] <= RES_TOL * slack)]
             if bad_res:
                 why.append("columns %s of the projection matrix do not solve (X M X^T) p = l (X B X^T) p: relative "
@@ -835,31 +939,19 @@ def eval_e(ctx, exe1, exe2, cases, stats, rng, rotate_every=2):
             ge = max(abs(gram[a][b] - (1.0 if a == b else 0.0)) for a in range(d) for b in range(d))
             if not ge <= GRAM_TOL * slack:
                 why.append("P^T (X B X^T) P differs from the identity by %.2e" % ge)
-            # embedding = centred samples projected
-            Xf = [[parse_hex(x) for x in row] for row in c["X"]]
-            mean = [math.fsum(Xf[s][f] for s in range(N)) / N for f in range(D)]
-            me = max(abs(mean[f] - p["mean"][f]) for f in range(D))
-            if not me <= 1e-11 * (1 + max(abs(x) for x in mean)):
-                why.append("the stored mean differs from the sample mean by %.2e" % me)
-            P = unflat(p["P"], D, d)
-            Y = unflat(p["Y"], N, d)
-            scale = max(1e-300, max(abs(x) for x in p["Y"]))
-            ee = 0.0
-            for s in range(N):
-                for j in range(d):
-                    y = math.fsum(P[f][j] * (Xf[s][f] - mean[f]) for f in range(D))
-                    ee = max(ee, abs(y - Y[s][j]))
-            if not ee <= EMB_TOL * scale * max(1.0, max(abs(m) for m in mean)):
-                why.append("embedding differs from P^T (x - mean) by %.2e" % ee)
         if rs and max(rs) > stats["e_max_res"]:
             stats["e_max_res"] = max(rs)
             stats["e_max_res_case"] = "%s N=%d D=%d d=%d k=%d nshift=%.0e cond=%.1e" % (
                 c["method"], N, D, d, c["k"], parse_hex(c["nshift"]), condB)
         if why:
             sig = None
-            ctx.violation(c, "tapkee::embed(%s), N=%d D=%d d=%d k=%d: %s" % (c["method"], N, D, d, c["k"],
-                                                                           "; ".join(why)), signature=sig)
+            ctx.violation(c, "tapkee::embed(%s%s), N=%d D=%d d=%d k=%d width=%.3g: %s"
+                          % (c["method"], EM_NAMES[c.get("em", 0)], N, D, d, c["k"], parse_hex(c["width"]),
+                             "; ".join(why)), signature=sig)
             stats["e_fail"] += 1
+            continue
+        if not spectral:
+            stats["e_ok_structural_only"] += 1
             continue
         stats["e_ok"] += 1
         # rotation pair
@@ -991,7 +1083,7 @@ def build_all(ctx):
 def new_stats():
     return {"malformed": 0, "spec_ok": 0, "spec_fail": 0, "other_triangle_differs": 0, "g_ok": 0,
             "select_bad": 0, "e_ok": 0, "e_fail": 0, "ref_failed": 0, "rot_ok": 0, "rot_fail": 0,
-            "j_ok": 0, "j_fail": 0, "chain_ok": 0, "chain_bad": 0, "chain_missing": 0, "rot_cols": 0, "rot_skipped_gap": 0, "rot_skipped_unstable_M": 0, "rot_max_M_reldiff": 0.0, "rot_min_cos": 1.0, "e_max_res": 0.0, "e_max_res_case": "", "e_max_condB": 0.0, "e_skipped_illconditioned": 0, "triangle_votes": {}}
+            "j_ok": 0, "j_fail": 0, "chain_ok": 0, "chain_bad": 0, "chain_missing": 0, "rot_cols": 0, "rot_skipped_gap": 0, "rot_skipped_unstable_M": 0, "rot_max_M_reldiff": 0.0, "rot_min_cos": 1.0, "e_max_res": 0.0, "e_max_res_case": "", "e_max_condB": 0.0, "e_skipped_illconditioned": 0, "e_ok_structural_only": 0, "e_randomized_refused": 0, "triangle_votes": {}}
 
 
 K_KINDS = ("plain", "plain", "correlated", "symmetric", "alignment", "empty", "zero")
@@ -1002,6 +1094,7 @@ def make_cases(rng, nk, ng, ne, big=False):
     for m in METHODS:
         for i in range(nk):
             kc.append(gen_k_case(rng, m, K_KINDS[i % len(K_KINDS)]))
+            kc.append(scale_k_case(rng, kc[-1]))
         for _ in range(max(1, nk // 20)):
             kc.append(gen_k_malformed(rng, m))
     gc = [gen_g_case(rng) for _ in range(ng)]
@@ -1009,6 +1102,19 @@ def make_cases(rng, nk, ng, ne, big=False):
     for m in METHODS:
         for i in range(ne):
             ec.append(gen_e_case(rng, m, big and i % 3 == 2))
+    if ne:
+        # LPP over kernel widths spanning 40 decades of heat weights (one case per stratum and round)
+        for _ in range(max(1, ne // 8)):
+            for lo, hi in LATTICE_STRATA:
+                ec.append(gen_e_lattice_case(rng, rng.uniform(lo, hi)))
+        # the other values of eigen_method: not given (library default) and Randomized (must be refused, or right)
+        for m in METHODS:
+            for em in (1, 2):
+                for _ in range(max(1, ne // 10)):
+                    c = gen_e_case(rng, m, False)
+                    c["em"] = em
+                    c["gen"] = "latent/em=%d" % em
+                    ec.append(c)
     return kc, gc, ec
 
 
@@ -1055,7 +1161,7 @@ def run(ctx):
         hist["K"][key] = hist["K"].get(key, 0) + 1
     hist["G"] = len(gc)
     for c in ec:
-        key = "%s/D=%d/offset=%g" % (c["method"], c["D"], c.get("offset", 0))
+        key = "%s/%s/D=%d/offset=%g" % (c["method"], c.get("gen", "latent"), c["D"], c.get("offset", 0))
         hist["E"][key] = hist["E"].get(key, 0) + 1
     distinct = set()
     for c in kc:
@@ -1073,8 +1179,9 @@ def run(ctx):
     ctx.finish(
         evaluations=n, distinct_nontrivial=len(distinct),
         rule="K: exact dyadic cases per method x generator kind (plain, correlated features, symmetric W, "
-             "alignment-like W with zero row/column sums, empty W, zero X, malformed index); non-trivial = N>=2, "
-             "D>=2, nnz>=1, distinct by hash. G: random pencils whose two triangles hold different symmetric "
+             "alignment-like W with zero row/column sums, empty W, zero X, malformed index), every case a second time "
+             "with W/L, the degree vector and the features multiplied by powers of two in 2^-70..2^70 (+scaled); "
+             "non-trivial = N>=2, D>=2, nnz>=1, distinct by hash. G: random pencils whose two triangles hold different symmetric "
              "matrices. E: public-API runs (latent 3-d structure, correlated noise, offsets 0..20, D 2..8 quick / "
              "..30 thorough), every second one also on R X. J: exact compute_mean/project cases (N = 2^k, dyadic X "
              "and P). evaluations = K + G + J + E(+rotated) driver runs.",
